@@ -547,6 +547,9 @@ class Interp:
                 return x & mask(wd)
             if isinstance(x, Poly):
                 if op == 'trunc':
+                    h = s.opts.get('symbolic_trunc')
+                    if h:
+                        return h(s, x, st[1], dt[1])
                     raise Incomplete('trunc of symbolic value')
                 s.assumptions.add('shape arithmetic does not overflow')
                 return x
@@ -959,12 +962,12 @@ class Interp:
         if name in s.mod.funcs:
             d = s.mod.dem.get(name, name)
             for pat, hh in s.opts.get('summ_re', ()):
-                if pat.search(d):
+                if pat.search(d) or pat.search(name):
                     return hh(s, args, ins)
             return s.call(name, args)
         d = s.mod.dem.get(name, name)
         for pat, hh in s.opts.get('summ_re', ()):
-            if pat.search(d):
+            if pat.search(d) or pat.search(name):
                 return hh(s, args, ins)
         raise Incomplete('call of unknown external function %s' % d)
 
